@@ -8,8 +8,16 @@ def run(ctx):
         envs=None, cross=None,
         rule='Each corpus case is run under memory limits of 16 B, 256 B, 4 KiB, 64 KiB and unlimited (memory and Parquet layouts, multi-batch inputs so sorts, aggregations and joins take their spill paths); an outcome must be an answer allowed by SqlSem or an explicit error, never different rows.')
 
+    import spillmodel
+    spillmodel.run_spill_model(ctx)
+
+
 def replay(ctx, obj):
+    import spillmodel
+    if spillmodel.is_spill_replay(obj):
+        return spillmodel.replay_spill_model(ctx, obj)
     sqlcheck.replay_sql(ctx, obj)
 
 def selftest(ctx):
-    return sqlprop.selftest(ctx, [])
+    import spillmodel
+    return spillmodel.selftest_spill_model(ctx) or sqlprop.selftest(ctx, [])
